@@ -414,6 +414,7 @@ tN2kDeviceList::tInternalDevice::tInternalDevice(uint64_t _Name, uint8_t _Source
   ConfI=0; ConfISize=0; ManufacturerInformation=0; InstallationDescription1=0; InstallationDescription2=0;
   TransmitPGNsSize=0; TransmitPGNs=0; ReceivePGNsSize=0; ReceivePGNs=0;
   nNameRequested=0;
+  LastMessageTime=GetCreateTime();
   ClearProductInformationLoaded();
   ClearConfigurationInformationLoaded();
   ClearPGNListLoaded();
